@@ -1,10 +1,113 @@
 import Driver.Util
+import Hv.Misc.Name
+import Hv.Misc.XXHash
 
-/-! Placeholder: the line-protocol driver of domain C20 is not written yet. -/
+/-! Line-protocol driver for the addressing model (domain C20).  Same ops and reply format as
+    `/verif/harness/c20.go`.  The hash is the Lean xxhash64 (differential-tested by this very
+    comparison).  Flags: `C20-island-off-by-one` (island 0, above N, or SDK ≠ server),
+    `C20-slice-out-of-range` (the level loop panics for a depth ≥ 0), `C20-default-config-panics`
+    (…at the shipped depth / folders-per-level), `C20-separator-collision` (two different triples,
+    one location). -/
 namespace Driver.C20
+open Hv.Name
 
-def run (_args : List String) : IO UInt32 := do
-  IO.eprintln "drv: domain C20 has no driver yet"
-  return 2
+def hexVal (c : Char) : Option Nat :=
+  if '0' ≤ c ∧ c ≤ '9' then some (c.toNat - '0'.toNat)
+  else if 'a' ≤ c ∧ c ≤ 'f' then some (c.toNat - 'a'.toNat + 10)
+  else none
+
+def unhexBytes : List Char → Option Bytes
+  | [] => some []
+  | [_] => none
+  | a :: b :: rest =>
+    match hexVal a, hexVal b, unhexBytes rest with
+    | some x, some y, some bs => some (UInt8.ofNat (x * 16 + y) :: bs)
+    | _, _, _ => none
+
+def field (s : String) : Option Bytes := if s == "-" then some [] else unhexBytes s.toList
+
+def digitChar (d : Nat) : Char := if d < 10 then Char.ofNat (48 + d) else Char.ofNat (87 + d)
+def hexStr (ds : List Nat) : String := String.ofList (ds.map digitChar)
+def hexOfBytes (b : Bytes) : String :=
+  if b.isEmpty then "-" else String.ofList (b.flatMap fun c => [digitChar (c.toNat / 16), digitChar (c.toNat % 16)])
+
+def hashOf (b : Bytes) : Nat := (Hv.XXHash.sum64 b).toNat
+
+def showOpt : Option Nat → String
+  | some i => toString i
+  | none => "panic"
+
+def islandHash (n : Name) : Nat := hashOf (n.s ++ n.r ++ n.w)
+
+def renderLoc (l : Loc) : String :=
+  "/r/" ++ toString l.island ++ String.join (l.levels.map fun p => "/" ++ hexStr p) ++ "/" ++ hexStr l.folder
+
+def pathOf (cfg : Cfg) (n : Name) (island : Nat) (depth per : Int) : String :=
+  match location cfg (hashOf (canon n)) island depth per with
+  | some l => renderLoc l
+  | none => "panic"
+
+def tri (s : String) : Bool := s == "yes"
+def natArg (kv : List (String × String)) (k : String) : Nat := ((arg kv k).toNat?).getD 0
+
+def step (cfg : Cfg) (_ : Unit) (line : String) : Unit × String :=
+  match line.splitOn " " with
+  | ["case", _] => ((), line)
+  | ["n", s, r, w, nn, d, p] =>
+    match field s, field r, field w, nn.toNat?, d.toInt?, p.toInt? with
+    | some s, some r, some w, some N, some depth, some per =>
+      let n : Name := ⟨s, r, w⟩
+      let h := islandHash n
+      let sdk := sdkIsland cfg h N
+      let srv := if N ≤ 65535 then some (srvIsland cfg h N) else none
+      let island := sdk.getD 0
+      let path := pathOf cfg n island depth per
+      let badIsland :=
+        (match sdk with | some i => i == 0 || i > N | none => false) ||
+        (match srv with | some v => v != sdk | none => false)
+      let f1 := if badIsland then "\t#F:C20-island-off-by-one" else ""
+      let f2 := if path == "panic" && depth ≥ 0 then "\t#F:C20-slice-out-of-range" else ""
+      let f3 := if path == "panic" && depth == (cfg.defDepth : Int) && per == (cfg.defPer : Int) then "\t#F:C20-default-config-panics" else ""
+      let srvS := match srv with | some v => showOpt v | none => "na"
+      ((), s!"sdk={showOpt sdk} srv={srvS} path={path} again=same{f1}{f2}{f3}")
+    | _, _, _, _, _, _ => ((), "bad-op")
+  | ["n2", s, r, w, a, b] =>
+    match field s, field r, field w, a.toNat?, b.toNat? with
+    | some s, some r, some w, some n1, some n2 =>
+      let h := islandHash ⟨s, r, w⟩
+      let two (f : Nat → Option Nat) : String :=
+        let x := f n1
+        let y := islandCached (x.getD 0) (f n2)
+        s!"{showOpt x},{showOpt y}"
+      ((), s!"sdk={two (sdkIsland cfg h)} srv={two (srvIsland cfg h)}")
+    | _, _, _, _, _ => ((), "bad-op")
+  | ["load", p] =>
+    match field p with
+    | some p =>
+      match load p with
+      | some n => ((), s!"sdk={hexOfBytes (canon n)} srv={hexOfBytes n.s}.{hexOfBytes n.r}.{hexOfBytes n.w}")
+      | none => ((), "sdk=panic srv=panic")
+    | none => ((), "bad-op")
+  | ["pair", a, b, c, x, y, z, d, p] =>
+    match field a, field b, field c, field x, field y, field z, d.toInt?, p.toInt? with
+    | some a, some b, some c, some x, some y, some z, some depth, some per =>
+      let n1 : Name := ⟨a, b, c⟩
+      let n2 : Name := ⟨x, y, z⟩
+      let p1 := pathOf cfg n1 1 depth per
+      let p2 := pathOf cfg n2 1 depth per
+      let same := p1 == p2 && p1 != "panic"
+      let fl := if same && n1 != n2 && canon n1 == canon n2 then "\t#F:C20-separator-collision" else ""
+      ((), s!"p1={p1} p2={p2} {if same then "same" else "diff"}{fl}")
+    | _, _, _, _, _, _, _, _ => ((), "bad-op")
+  | _ => ((), "bad-op")
+
+def run (args : List String) : IO UInt32 := do
+  let kv := parseArgs args
+  let cfg : Cfg :=
+    ⟨tri (arg kv "sdkPlusOne"), tri (arg kv "srvPlusOne"), natArg kv "srvBits", arg kv "hexVerb" == "no",
+     natArg kv "cplMin", tri (arg kv "sliceClampsStart"), tri (arg kv "ctorsRejectSlash"),
+     natArg kv "defDepth", natArg kv "defPer"⟩
+  lineLoop (step cfg) ()
+  return 0
 
 end Driver.C20
